@@ -281,6 +281,59 @@ func c13Observe(d c13Doc, route string) (map[string]string, string) {
 		obs["q[1]"] = v
 		v, _ = c13ReadKey(root, ".t.r.y")
 		obs["r.y"] = v
+	case "json-of-t", "explode-t":
+		// the merging map alone: converted to JSON as it stands in the un-exploded document, or exploded on its own;
+		// the anchored maps (which lie outside of it) keep their node graph
+		defsNode, _, _ := impl.EvalRO(c15Expr(".defs"), root)
+		before := ""
+		if len(defsNode) == 1 {
+			before = c13DownDump(defsNode[0])
+		}
+		var js string
+		if route == "json-of-t" {
+			tn, err, pan := impl.EvalRO(c15Expr(".t"), root)
+			if err != nil || pan != nil || len(tn) != 1 {
+				return nil, fmt.Sprintf(".t: %v %v", err, pan)
+			}
+			var jerr error
+			if js, jerr = c13JSON(tn[0]); jerr != nil {
+				return nil, "json: " + jerr.Error()
+			}
+		} else {
+			res, err, pan := impl.Eval(c15Expr("explode(.t) | .t"), root)
+			if err != nil || pan != nil || len(res) != 1 {
+				return nil, fmt.Sprintf("explode(.t): %v %v", err, pan)
+			}
+			for _, c := range res[0].Content {
+				if c.Tag == "!!merge" || c.Kind == yqlib.AliasNode {
+					obs["#leftover"] = "a merge key or alias is left in .t after explode(.t)"
+				}
+			}
+			var jerr error
+			if js, jerr = c13JSON(res[0].Copy()); jerr != nil {
+				return nil, "json: " + jerr.Error()
+			}
+		}
+		if len(defsNode) == 1 {
+			if after := c13DownDump(defsNode[0]); after != before {
+				obs["#leftover"] = "the anchored maps under .defs changed:\n" + firstDiff(before, after)
+			}
+		}
+		var t map[string]json.RawMessage
+		if err := json.Unmarshal([]byte(js), &t); err != nil {
+			return nil, "output is not valid JSON: " + js
+		}
+		for _, k := range c13Keys {
+			if raw, ok := t[k]; ok {
+				obs[k] = string(raw)
+			} else {
+				obs[k] = "<absent>"
+			}
+		}
+		if _, ok := t["<<"]; ok {
+			obs["#leftover"] = "a merge key is left in the JSON: " + js
+		}
+		obs["#defs"], _ = c13ReadKey(root, ".defs")
 	case "json":
 		js, err := c13JSON(root)
 		if err != nil {
@@ -356,7 +409,7 @@ func c13Mismatches(d c13Doc, route string) (out []struct{ key, sig, detail strin
 			out = append(out, struct{ key, sig, detail string }{k, sig, fmt.Sprintf("key %s reads %s, the merge-key rules give %s", k, obs[k], want)})
 		}
 	}
-	if route != "json" {
+	if route == "traverse" || route == "explode" {
 		if obs["q[1]"] != `"s1"` {
 			out = append(out, struct{ key, sig, detail string }{"q[1]", route + "/alias-to-sequence", "t.q[1] reads " + obs["q[1]"]})
 		}
@@ -406,6 +459,33 @@ var c13Hand = []struct {
 		[]string{`{"a":{"k":1},"b":{"k":1,"j":2},"c":{"k":1,"j":2,"i":3},"d":{"k":1,"j":2,"i":3},"e":[{"k":1},{"k":1,"j":2},{"k":1,"j":2,"i":3}]}`}},
 }
 
+// c13DownDump: what lies below a node (alias targets included), with every child's parent link checked.
+func c13DownDump(root *yqlib.CandidateNode) string {
+	var sb strings.Builder
+	seen := map[*yqlib.CandidateNode]int{}
+	var walk func(n *yqlib.CandidateNode, depth int)
+	walk = func(n *yqlib.CandidateNode, depth int) {
+		if id, ok := seen[n]; ok {
+			fmt.Fprintf(&sb, "%s(node %d again)\n", strings.Repeat(" ", depth), id)
+			return
+		}
+		seen[n] = len(seen)
+		fmt.Fprintf(&sb, "%snode %d kind=%v tag=%s value=%q anchor=%q style=%v head=%q line=%q foot=%q\n", strings.Repeat(" ", depth), seen[n], n.Kind, n.Tag, n.Value, n.Anchor, n.Style, n.HeadComment, n.LineComment, n.FootComment)
+		if n.Kind == yqlib.AliasNode && n.Alias != nil {
+			fmt.Fprintf(&sb, "%s alias of:\n", strings.Repeat(" ", depth))
+			walk(n.Alias, depth+2)
+		}
+		for i, c := range n.Content {
+			if c.Parent != n {
+				fmt.Fprintf(&sb, "%s child %d has another parent\n", strings.Repeat(" ", depth), i)
+			}
+			walk(c, depth+1)
+		}
+	}
+	walk(root, 0)
+	return sb.String()
+}
+
 func c13CheckHand(name, route string) (kind, detail string) {
 	for _, h := range c13Hand {
 		if h.name != name {
@@ -417,6 +497,59 @@ func c13CheckHand(name, route string) (kind, detail string) {
 		}
 		if len(docs) != len(h.want) {
 			return "document-count", fmt.Sprintf("%d documents decoded, %d written", len(docs), len(h.want))
+		}
+		if route == "explode-part" {
+			// explode applied to one entry of the root at a time: the entry reads as before and has nothing left in it,
+			// and every other entry keeps its node graph (anchors and aliases included) - explode changes no other value
+			for i, root := range docs {
+				if root.Kind != yqlib.MappingNode {
+					continue
+				}
+				for k := 0; k+1 < len(root.Content); k += 2 {
+					fresh, _, _ := impl.DecodeYAML(h.yaml)
+					r := fresh[i]
+					before := map[int]string{}
+					for j := 0; j+1 < len(r.Content); j += 2 {
+						before[j] = c13DownDump(r.Content[j+1])
+					}
+					// (an entry that holds an anchor is left out: exploding it takes the anchor away from under its aliases elsewhere)
+					anchored := false
+					var scan func(n *yqlib.CandidateNode)
+					scan = func(n *yqlib.CandidateNode) {
+						if n.Anchor != "" {
+							anchored = true
+						}
+						for _, c := range n.Content {
+							scan(c)
+						}
+					}
+					scan(r.Content[k+1])
+					if anchored {
+						continue
+					}
+					expr := fmt.Sprintf("explode(.[%q])", r.Content[k].Value)
+					res, err, pan := impl.Eval(c15Expr(expr), r)
+					if err != nil || pan != nil || len(res) != 1 {
+						return "explode-error", fmt.Sprintf("%s: %v %v", expr, err, pan)
+					}
+					for j := 0; j+1 < len(r.Content); j += 2 {
+						if j == k {
+							continue
+						}
+						if after := c13DownDump(r.Content[j+1]); after != before[j] {
+							return "other-entry-changed", fmt.Sprintf("document %d: %s changed the entry %q:\n%s", i, expr, r.Content[j].Value, firstDiff(before[j], after))
+						}
+					}
+					js, jerr := c13JSON(r)
+					if jerr != nil {
+						return "json-error", jerr.Error()
+					}
+					if !c13SameJSON(js, h.want[i]) {
+						return "value", fmt.Sprintf("document %d after %s reads %s, means %s", i, expr, js, h.want[i])
+					}
+				}
+			}
+			return "", ""
 		}
 		if route == "json-one-printer" {
 			// the way the command line prints a stream: one printer, one PrintResults call per document
@@ -503,7 +636,7 @@ func c13Run(c *fw.Ctx) error {
 		if !c.Mine(int64(hi)) {
 			continue
 		}
-		for _, route := range []string{"json", "explode", "json-one-printer"} {
+		for _, route := range []string{"json", "explode", "explode-part", "json-one-printer"} {
 			kind, detail := c13CheckHand(h.name, route)
 			c.Eval(1)
 			c.Validated(1)
@@ -517,12 +650,12 @@ func c13Run(c *fw.Ctx) error {
 		}
 	}
 	docs := c13Docs(c.Thorough())
-	c.Res.Bound = fmt.Sprintf("%d documents: every placement of <= %d explicit keys of {x y z w} before/after `<<` x {no merge, single alias a|b|c, every ordered list of 1..3 of a b c (c itself merges b)} x 3 routes x 9 read paths; 7 hand-written streams (anchor names redefined within and across documents, merged values that hold anchors and aliases used again, alias chains) x 3 routes (each document alone as JSON, explode, the whole stream through one JSON printer)", len(docs), map[bool]int{false: 3, true: 4}[c.Thorough()])
+	c.Res.Bound = fmt.Sprintf("%d documents: every placement of <= %d explicit keys of {x y z w} before/after `<<` x {no merge, single alias a|b|c, every ordered list of 1..3 of a b c (c itself merges b)} x 5 routes (traversal, explode(.), whole document to JSON, the merging map alone to JSON, explode of the merging map alone) x 9 read paths; 7 hand-written streams (anchor names redefined within and across documents, merged values that hold anchors and aliases used again, alias chains) x 4 routes (each document alone as JSON, explode, explode of one root entry at a time with the other entries' node graphs compared, the whole stream through one JSON printer)", len(docs), map[bool]int{false: 3, true: 4}[c.Thorough()])
 	for i, d := range docs {
 		if !c.Mine(int64(i)) || c.Expired() {
 			continue
 		}
-		for _, route := range []string{"traverse", "explode", "json"} {
+		for _, route := range []string{"traverse", "explode", "json", "json-of-t", "explode-t"} {
 			mm := c13Mismatches(d, route)
 			c.Eval(int64(len(c13Keys) + 2))
 			c.Validated(int64(len(c13Keys) + 2))
